@@ -71,6 +71,12 @@ class VC:
             if isinstance(a, list) and len(a) == 3 and a[0] == "=" and isinstance(a[1], str) and a[1] in self.decls \
                     and self.decls[a[1]] == "Bool" and "guard" in a[1] and a[1] not in self.defs:
                 self.defs[a[1]] = a[2]
+        # float stored into an integer-typed object: CBMC introduces `bvfromfloat.k` with (assert (= ((_ to_fp e s) bvfromfloat.k) <float term>))
+        self.fbits = {}
+        for a in self.asserts:
+            if isinstance(a, list) and len(a) == 3 and a[0] == "=" and isinstance(a[1], list) and len(a[1]) == 2 and isinstance(a[1][0], list) \
+                    and a[1][0][:2] == ["_", "to_fp"] and isinstance(a[1][1], str) and a[1][1].startswith("bvfromfloat."):
+                self.fbits[a[1][1]] = a[2]
         self._final = None
 
     def final_versions(self, base):
@@ -131,6 +137,8 @@ class Evaluator:
             return v
         if name in self.vc.defs:
             v = self.ev(self.vc.defs[name])
+        elif name in getattr(self.vc, "fbits", {}):
+            v = ("fbits", self.ev(self.vc.fbits[name]))  # the bit pattern of that float value
         elif name in self.vc.decls:
             v = self.dom.atom(name, self.vc.decls[name])
         elif name in ("true", "false"):
@@ -358,6 +366,19 @@ class RealDom:
         return ("arr", {}, v)
 
     def indexed(self, op, idx, args):
+        if isinstance(args[0], tuple) and args[0] and args[0][0] == "fbits":
+            if op == "to_fp" and len(args) == 1:
+                return args[0][1]  # reinterpretation of the stored bits as the float they came from
+            if op == "extract" and idx == [63, 0]:
+                return args[0]
+            if op == "extract":
+                return ("fpart", args[0][1], idx[0], idx[1])  # a slice of the stored bits (byte-wise copies); only re-assembly is supported
+            raise Unsupported("bit-level operation %s on a stored float" % op)
+        if isinstance(args[0], tuple) and args[0] and args[0][0] == "fpart":
+            if op == "extract":
+                _, x, hi, lo = args[0]
+                return ("fpart", x, lo + idx[0], lo + idx[1])
+            raise Unsupported("bit-level operation %s on a slice of a stored float" % op)
         if op == "extract" and args[0][0] == "bv":
             hi, lo = idx
             return ("bv", (args[0][1] >> lo) & ((1 << (hi - lo + 1)) - 1), hi - lo + 1)
@@ -451,6 +472,17 @@ class RealDom:
             return ("bool", any(a[1] for a in args))
         if op in BVOPS and all(isinstance(a, tuple) and a[0] == "bv" for a in args):
             return bv_concrete(op, args)
+        if op == "concat" and all(isinstance(a, tuple) and a and a[0] == "fpart" for a in args):
+            # byte-wise copy of a stored float, re-assembled most significant part first
+            x = args[0][1]
+            pos = 63
+            for a in args:
+                if a[1] is not x or a[2] != pos:
+                    raise Unsupported("concat of float slices that do not re-assemble one stored float")
+                pos = a[3] - 1
+            if pos != -1:
+                raise Unsupported("partial re-assembly of a stored float")
+            return ("fbits", x)
         raise Unsupported("operation %s in the real domain" % op)
 
     def _select(self, arr, idx):
